@@ -1,5 +1,5 @@
 (* Ser/CodecLoaded.v -- what ANY successful load guarantees of the loaded map
-   (uncapped reader, input a list of bytes < 256): it is wf_codec and mentions
+   (any configuration, input a list of bytes < 256): it is wf_codec and mentions
    only accepted function literals; hence it can be saved and loaded again. *)
 From Coq Require Import Lia ZifyBool.
 From FendV Require Import Base.Prelude Ser.Codec Ser.CodecRT Ser.CodecSafe.
@@ -118,11 +118,6 @@ Proof.
   induction l as [|[k v] l IH]; cbn [fold_left length]; intros acc; [lia|].
   specialize (IH (map_insert k v acc)). cbn [fst snd]. pose proof (length_map_insert V k v acc). lia.
 Qed.
-Lemma fits_shorter : forall A A2 szz (l : list A) (l' : list A2), (length l' <= length l)%nat -> fits szz l = true -> fits szz l' = true.
-Proof.
-  intros A B0 szz l l' H F. unfold fits, len_N in *. apply N.leb_le in F. apply N.leb_le.
-  assert (N.of_nat (length l') * szz <= N.of_nat (length l) * szz) by (apply N.mul_le_mono_r; lia). lia.
-Qed.
 
 Lemma postb_list_go : forall A (P : A -> bool) (elem : M A), postb (fun x => P x = true) elem -> pre elem ->
   forall fuel n, postb (fun l => forallb P l = true /\ len_N l = n) (de_list_go elem fuel n).
@@ -147,42 +142,54 @@ Section Loaded.
 Variable c : cfg.
 Variable asn : list bytes.
 Let sz := c_sz c.
-Hypothesis Hcap : c_cap c = None.
 Hypothesis Hsub : forall s, mem s (c_from c) = true -> mem s asn = true.
 
-Lemma postb_alloc : forall n szz, postb (fun _ => n * szz <= isize_max) (alloc c n szz).
+Lemma postb_alloc : forall n szz, postb (fun _ => capn (c_cap c) n * szz <= isize_max) (alloc c n szz).
 Proof.
-  intros n szz bs a r _ E. unfold run, alloc in E. rewrite Hcap in E.
-  destruct (isize_max <? n * szz) eqn:L; cbn [fst] in E; [discriminate|]. apply N.ltb_ge in L. exact L.
+  intros n szz bs a r _ E. unfold run, alloc in E.
+  destruct (isize_max <? capn (c_cap c) n * szz) eqn:L; cbn [fst] in E; [discriminate|]. apply N.ltb_ge in L. exact L.
+Qed.
+Lemma fitn_intro : forall szz n, u64b n = true -> capn (c_cap c) n * szz <= isize_max -> fitn (c_cap c) szz n = true.
+Proof. intros szz n H1 H2. unfold fitn. rewrite H1. cbn [andb]. apply N.leb_le. exact H2. Qed.
+Lemma fitn_le : forall cap szz n m, m <= n -> fitn cap szz n = true -> fitn cap szz m = true.
+Proof.
+  intros cap szz n m Hle H. unfold fitn, u64b in *. apply andb_prop in H. destruct H as [H1 H2].
+  apply N.ltb_lt in H1. apply N.leb_le in H2.
+  assert (capn cap m <= capn cap n) by (destruct cap; cbn [capn]; lia).
+  assert (capn cap m * szz <= capn cap n * szz) by (apply N.mul_le_mono_r; auto).
+  apply andb_true_intro. split; [apply N.ltb_lt | apply N.leb_le]; lia.
 Qed.
 
-Lemma postb_str : postb (fun s => strb s = true) (de_str c).
+Lemma postb_str : postb (fun s => strb (c_cap c) s = true) (de_str c).
 Proof.
-  unfold de_str, de_usize. apply postb_bind_any; [auto with pre|]. intros n.
+  unfold de_str, de_usize. eapply postb_bind; [apply postb_u64 | auto with pre |]. intros n Hu; cbv beta in Hu.
   eapply postb_bind; [apply postb_alloc | apply pre_alloc |]. intros u Hn; cbv beta in Hn.
   intros bs a r _ E. unfold run in E. destruct (n <=? len_N bs) eqn:L; cbn [fst] in E; [|discriminate].
   cbv zeta in E. destruct (utf8_valid (firstn (N.to_nat n) bs)) eqn:U; cbn [fst] in E; [|discriminate].
-  inversion E; subst. unfold strb. rewrite U. cbn [andb]. unfold fits. apply N.leb_le.
-  apply N.leb_le in L. unfold len_N in *. rewrite firstn_length_le by lia. rewrite N2Nat.id. lia.
+  inversion E; subst. unfold strb. rewrite U. cbn [andb]. unfold fits.
+  apply N.leb_le in L. unfold len_N in *.
+  replace (N.of_nat (length (firstn (N.to_nat n) bs))) with n.
+  2:{ rewrite firstn_length_le by lia. rewrite N2Nat.id. reflexivity. }
+  apply fitn_intro; auto.
 Qed.
-Lemma postb_ident : postb (fun s => strb s = true) (de_ident c).
+Lemma postb_ident : postb (fun s => strb (c_cap c) s = true) (de_ident c).
 Proof.
   unfold de_ident. eapply postb_bind; [apply postb_str | auto with pre |]. intros s Hs.
   destruct (c_validate c && negb (identb s)); [apply postb_fail | apply postb_ret; exact Hs].
 Qed.
 
-Lemma postb_biguint : postb (fun b => wfc_biguint b = true) (de_biguint c).
+Lemma postb_biguint : postb (fun b => wfc_biguint (c_cap c) b = true) (de_biguint c).
 Proof.
   unfold de_biguint, de_usize. apply postb_bind_any; [auto with pre|]. intros k.
   destruct (k =? 1). { eapply postb_bind; [apply postb_u64 | auto with pre |]. intros x Hx. apply postb_ret. exact Hx. }
   destruct (k =? 2); [|apply postb_fail].
-  apply postb_bind_any; [auto with pre|]. intros n.
+  eapply postb_bind; [apply postb_u64 | auto with pre |]. intros n Hu; cbv beta in Hu.
   eapply postb_bind; [apply postb_alloc | apply pre_alloc |]. intros u Hn; cbv beta in Hn.
   eapply postb_bind; [apply (postb_list _ u64b); [apply postb_u64 | auto with pre] | auto with pre |].
   intros v [H1 H2]. destruct (c_validate c && (len_N v =? 0)); [apply postb_fail|].
-  apply postb_ret. cbn [wfc_biguint]. rewrite H1. cbn [andb]. unfold fits. apply N.leb_le. rewrite H2. exact Hn.
+  apply postb_ret. cbn [wfc_biguint]. rewrite H1. cbn [andb]. unfold fits. rewrite H2. apply fitn_intro; auto.
 Qed.
-Lemma postb_bigrat : postb (fun q => wfc_bigrat q = true) (de_bigrat c).
+Lemma postb_bigrat : postb (fun q => wfc_bigrat (c_cap c) q = true) (de_bigrat c).
 Proof.
   unfold de_bigrat. apply postb_bind_any; [auto with pre|]. intros s.
   eapply postb_bind; [apply postb_biguint | auto with pre |]. intros n Hn.
@@ -190,67 +197,67 @@ Proof.
   destruct (c_validate c && biguint_is_zero d); [apply postb_fail|].
   apply postb_ret. unfold wfc_bigrat. cbn [r_num r_den]. rewrite Hn, Hd. reflexivity.
 Qed.
-Lemma postb_real : postb (fun r => wfc_real r = true) (de_real c).
+Lemma postb_real : postb (fun r => wfc_real (c_cap c) r = true) (de_real c).
 Proof.
   unfold de_real. apply postb_bind_any; [auto with pre|]. intros k.
   destruct (k =? 1). { eapply postb_bind; [apply postb_bigrat | auto with pre |]. intros q Hq. apply postb_ret. exact Hq. }
   destruct (k =? 2); [|apply postb_fail].
   eapply postb_bind; [apply postb_bigrat | auto with pre |]. intros q Hq. apply postb_ret. exact Hq.
 Qed.
-Lemma postb_complex : postb (fun z => wfc_complex z = true) (de_complex c).
+Lemma postb_complex : postb (fun z => wfc_complex (c_cap c) z = true) (de_complex c).
 Proof.
   unfold de_complex. eapply postb_bind; [apply postb_real | auto with pre |]. intros a Ha.
   eapply postb_bind; [apply postb_real | auto with pre |]. intros b Hb. apply postb_ret.
   unfold wfc_complex. cbn [c_re c_im]. rewrite Ha, Hb. reflexivity.
 Qed.
-Lemma postb_part : postb (fun p => wfc_part p = true) (de_part c).
+Lemma postb_part : postb (fun p => wfc_part (c_cap c) p = true) (de_part c).
 Proof.
   unfold de_part. eapply postb_bind; [apply postb_complex | auto with pre |]. intros a Ha.
   eapply postb_bind; [apply postb_bigrat | auto with pre |]. intros b Hb. apply postb_ret.
   unfold wfc_part. cbn [fst snd]. rewrite Ha, Hb. reflexivity.
 Qed.
-Lemma postb_dist : postb (fun d => forallb wfc_part d = true /\ fits (sz_part sz) d = true) (de_dist c).
+Lemma postb_dist : postb (fun d => forallb (wfc_part (c_cap c)) d = true /\ fits (c_cap c) (sz_part sz) d = true) (de_dist c).
 Proof.
-  unfold de_dist, de_usize. apply postb_bind_any; [auto with pre|]. intros n.
+  unfold de_dist, de_usize. eapply postb_bind; [apply postb_u64 | auto with pre |]. intros n Hu; cbv beta in Hu.
   eapply postb_bind; [apply postb_alloc | apply pre_alloc |]. intros u Hn; cbv beta in Hn.
-  intros bs a r Hb E. eapply (postb_list _ wfc_part) in E; eauto using postb_part with pre.
-  destruct E as [E1 E2]. split; auto. unfold fits. apply N.leb_le. rewrite E2. exact Hn.
+  intros bs a r Hb E. eapply (postb_list _ (wfc_part (c_cap c))) in E; eauto using postb_part with pre.
+  destruct E as [E1 E2]. split; auto. unfold fits. rewrite E2. apply fitn_intro; auto.
 Qed.
-Lemma postb_bu : postb (fun p => wfc_bu p = true) (de_bu c).
+Lemma postb_bu : postb (fun p => wfc_bu (c_cap c) p = true) (de_bu c).
 Proof.
   unfold de_bu. eapply postb_bind; [apply postb_str | auto with pre |]. intros k Hk.
   eapply postb_bind; [apply postb_complex | auto with pre |]. intros v Hv. apply postb_ret.
   unfold wfc_bu. cbn [fst snd]. rewrite Hk, Hv. reflexivity.
 Qed.
-Lemma postb_named_unit : postb (fun u => wfc_named_unit sz u = true) (de_named_unit c).
+Lemma postb_named_unit : postb (fun u => wfc_named_unit (c_cap c) sz u = true) (de_named_unit c).
 Proof.
   unfold de_named_unit, de_usize.
   eapply postb_bind; [apply postb_str | auto with pre |]. intros p Hp.
   eapply postb_bind; [apply postb_str | auto with pre |]. intros s Hs.
   eapply postb_bind; [apply postb_str | auto with pre |]. intros pl Hpl.
   apply postb_bind_any; [auto with pre|]. intros a.
-  apply postb_bind_any; [auto with pre|]. intros n.
+  eapply postb_bind; [apply postb_u64 | auto with pre |]. intros n Hu; cbv beta in Hu.
   eapply postb_bind; [apply postb_alloc | apply pre_alloc |]. intros u Hn; cbv beta in Hn.
-  eapply postb_bind; [apply (postb_list _ wfc_bu); [apply postb_bu | auto with pre] | auto with pre |]. intros l [Hl Hlen].
+  eapply postb_bind; [apply (postb_list _ (wfc_bu (c_cap c))); [apply postb_bu | auto with pre] | auto with pre |]. intros l [Hl Hlen].
   eapply postb_bind; [apply postb_complex | auto with pre |]. intros sc Hsc. apply postb_ret.
   unfold wfc_named_unit. cbn [nu_prefix nu_singular nu_plural nu_base nu_scale]. rewrite Hp, Hs, Hpl, Hsc. cbn [andb].
   unfold insert_all. rewrite forallb_insert_fold by auto. rewrite nodup_insert_fold by reflexivity.
   repeat rewrite andb_true_r; cbn [andb]; repeat rewrite andb_true_r.
-  apply (fits_shorter _ _ (sz_bu sz) l). { pose proof (length_insert_fold _ l []). cbn [length] in *. lia. }
-  unfold fits. apply N.leb_le. rewrite Hlen. exact Hn.
+  unfold fits. apply (fitn_le _ _ n); [|apply fitn_intro; auto].
+  pose proof (length_insert_fold _ l []). cbn [length] in *. unfold len_N in *. lia.
 Qed.
-Lemma postb_unit_exp : postb (fun u => wfc_unit_exp sz u = true) (de_unit_exp c).
+Lemma postb_unit_exp : postb (fun u => wfc_unit_exp (c_cap c) sz u = true) (de_unit_exp c).
 Proof.
   unfold de_unit_exp. eapply postb_bind; [apply postb_named_unit | auto with pre |]. intros u Hu.
   eapply postb_bind; [apply postb_complex | auto with pre |]. intros e He. apply postb_ret.
   unfold wfc_unit_exp. cbn [ue_unit ue_exp]. rewrite Hu, He. reflexivity.
 Qed.
-Lemma postb_unit : postb (fun u => forallb (wfc_unit_exp sz) u = true /\ fits (sz_uexp sz) u = true) (de_unit c).
+Lemma postb_unit : postb (fun u => forallb (wfc_unit_exp (c_cap c) sz) u = true /\ fits (c_cap c) (sz_uexp sz) u = true) (de_unit c).
 Proof.
-  unfold de_unit, de_usize. apply postb_bind_any; [auto with pre|]. intros n.
+  unfold de_unit, de_usize. eapply postb_bind; [apply postb_u64 | auto with pre |]. intros n Hu; cbv beta in Hu.
   eapply postb_bind; [apply postb_alloc | apply pre_alloc |]. intros u Hn; cbv beta in Hn.
-  intros bs a r Hb E. eapply (postb_list _ (wfc_unit_exp sz)) in E; eauto using postb_unit_exp with pre.
-  destruct E as [E1 E2]. split; auto. unfold fits. apply N.leb_le. rewrite E2. exact Hn.
+  intros bs a r Hb E. eapply (postb_list _ (wfc_unit_exp (c_cap c) sz)) in E; eauto using postb_unit_exp with pre.
+  destruct E as [E1 E2]. split; auto. unfold fits. rewrite E2. apply fitn_intro; auto.
 Qed.
 Lemma postb_base : postb (fun b => wfc_base b = true) (de_base c).
 Proof.
@@ -268,7 +275,7 @@ Proof.
     try apply postb_fail; try (apply postb_ret; reflexivity);
     (eapply postb_bind; [apply postb_u64 | auto with pre |]); intros x Hx; apply postb_ret; exact Hx.
 Qed.
-Lemma postb_number : postb (fun n => wfc_number sz n = true) (de_number c).
+Lemma postb_number : postb (fun n => wfc_number (c_cap c) sz n = true) (de_number c).
 Proof.
   unfold de_number. eapply postb_bind; [apply postb_dist | auto with pre |]. intros v [Hv1 Hv2].
   eapply postb_bind; [apply postb_unit | auto with pre |]. intros u [Hu1 Hu2].
@@ -305,12 +312,12 @@ Proof.
 Qed.
 
 (* the tree: wf_codec and only accepted function literals *)
-Definition Lv (v : value) : Prop := wfc_value asn sz v = true /\ names_ok_value (c_from c) v = true.
-Definition Le (e : expr) : Prop := wfc_expr asn sz e = true /\ names_ok_expr (c_from c) e = true.
-Definition Ls (s : scope) : Prop := wfc_scope asn sz s = true /\ names_ok_scope (c_from c) s = true.
-Definition Lo (o : oscope) : Prop := wfc_oscope asn sz o = true /\ names_ok_oscope (c_from c) o = true.
+Definition Lv (v : value) : Prop := wfc_value asn (c_cap c) sz v = true /\ names_ok_value (c_from c) v = true.
+Definition Le (e : expr) : Prop := wfc_expr asn (c_cap c) sz e = true /\ names_ok_expr (c_from c) e = true.
+Definition Ls (s : scope) : Prop := wfc_scope asn (c_cap c) sz s = true /\ names_ok_scope (c_from c) s = true.
+Definition Lo (o : oscope) : Prop := wfc_oscope asn (c_cap c) sz o = true /\ names_ok_oscope (c_from c) o = true.
 Definition Li (n : N) (it : items) : Prop :=
-  wfc_items asn sz it = true /\ names_ok_items (c_from c) it = true /\ items_len it = n.
+  wfc_items asn (c_cap c) sz it = true /\ names_ok_items (c_from c) it = true /\ items_len it = n.
 
 Lemma postb_opt_scope : forall (flag : M bool) (sc : M scope), pre flag -> pre sc ->
   postb Ls sc -> postb Lo (opt_scope flag sc).
@@ -344,10 +351,10 @@ Proof.
     eapply postb_bind; [apply He | auto |]. intros e [H1 H2].
     eapply postb_bind; [apply postb_opt_scope; auto with pre | auto with pre |]. intros sc [H3 H4].
     apply postb_ret. split; cbn [wfc_value names_ok_value]; rewrite ?Hp, ?H1, ?H2, ?H3, ?H4; reflexivity.
-  - apply postb_bind_any; [auto with pre|]. intros n.
+  - eapply postb_bind; [apply postb_u64 | auto with pre |]. intros n Hu; cbv beta in Hu.
     eapply postb_bind; [apply postb_alloc | apply pre_alloc |]. intros u Hn; cbv beta in Hn.
     eapply postb_bind; [apply Hi | auto |]. intros it (H1 & H2 & H3).
-    apply postb_ret. split; cbn [wfc_value names_ok_value]; auto. rewrite H1, H3. cbn [andb]. apply N.leb_le. exact Hn.
+    apply postb_ret. split; cbn [wfc_value names_ok_value]; auto. rewrite H1, H3. cbn [andb]. apply fitn_intro; auto.
   - eapply postb_bind; [apply postb_str | auto with pre |]. intros s Hs0. apply postb_ret. split; [exact Hs0 | reflexivity].
   - apply postb_bind_any; [auto with pre|]. intros b. apply postb_ret. split; reflexivity.
   - eapply postb_bind; [apply postb_month | auto with pre |]. intros m Hm. apply postb_ret. split; [exact Hm | reflexivity].
@@ -371,7 +378,7 @@ Proof.
    | apply postb_bind_any; [auto with pre|]; intro
    | fin_ret ].
 Qed.
-Lemma postb_scope_body : forall re rs id, strb id = true -> postb Le re -> pre re -> postb Ls rs -> pre rs ->
+Lemma postb_scope_body : forall re rs id, strb (c_cap c) id = true -> postb Le re -> pre re -> postb Ls rs -> pre rs ->
   postb Ls (de_scope_body c re rs id).
 Proof.
   intros re rs id H0 He Pe Hs Ps. unfold de_scope_body.
@@ -380,7 +387,7 @@ Proof.
   eapply postb_bind; [apply postb_opt_scope; auto with pre | auto with pre |]. intros inner [H5 H6].
   apply postb_ret. split; cbn [wfc_scope names_ok_scope]; rewrite ?H0, ?H1, ?H2, ?H3, ?H4, ?H5, ?H6; reflexivity.
 Qed.
-Lemma postb_items_body : forall n rv ri k, strb k = true -> postb Lv rv -> pre rv -> postb (Li n) ri -> pre ri ->
+Lemma postb_items_body : forall n rv ri k, strb (c_cap c) k = true -> postb Lv rv -> pre rv -> postb (Li n) ri -> pre ri ->
   postb (Li (1 + n)) (de_items_body rv ri k).
 Proof.
   intros n rv ri k H0 Hv Pv Hi Pi. unfold de_items_body.
@@ -412,7 +419,7 @@ Proof.
 Qed.
 
 Definition Lm (bound : N) (m : vars) : Prop :=
-  forallb (wfc_entry asn sz) m = true /\ forallb (fun kv => names_ok_value (c_from c) (snd kv)) m = true /\
+  forallb (wfc_entry asn (c_cap c) sz) m = true /\ forallb (fun kv => names_ok_value (c_from c) (snd kv)) m = true /\
   nodup_keys m = true /\ len_N m <= bound.
 
 Lemma postb_vars_go : forall fuel n acc k0, Lm k0 acc -> postb (Lm (k0 + n)) (de_vars_go c fuel n acc).
@@ -435,19 +442,18 @@ Proof.
 Qed.
 
 Theorem loaded_wfc : forall bs m r, bytes_ok bs -> run (de_vars c) bs = Ok (m, r) ->
-  wfc_vars asn sz m = true /\ forallb (fun kv => names_ok_value (c_from c) (snd kv)) m = true.
+  wfc_vars asn (c_cap c) sz m = true /\ forallb (fun kv => names_ok_value (c_from c) (snd kv)) m = true.
 Proof.
   intros bs m r Hb E. unfold de_vars in E.
   change (run (rd n <- de_usize; rd _ <- alloc c n (sz_var (c_sz c)); de_vars_go c (length bs) n []) bs = Ok (m, r)) in E.
-  assert (P : postb (fun m => wfc_vars asn sz m = true /\ forallb (fun kv => names_ok_value (c_from c) (snd kv)) m = true)
+  assert (P : postb (fun m => wfc_vars asn (c_cap c) sz m = true /\ forallb (fun kv => names_ok_value (c_from c) (snd kv)) m = true)
                     (rd n <- de_usize; rd _ <- alloc c n (sz_var (c_sz c)); de_vars_go c (length bs) n [])).
-  { unfold de_usize. apply postb_bind_any; [auto with pre|]. intros n.
+  { unfold de_usize. eapply postb_bind; [apply postb_u64 | auto with pre |]. intros n Hu; cbv beta in Hu.
     eapply postb_bind; [apply postb_alloc | apply pre_alloc |]. intros u Hn; cbv beta in Hn.
     intros bs' m' r' Hb' E'.
     assert (L0 : Lm 0 []) by (unfold Lm; repeat split; try reflexivity; cbn; lia).
     pose proof (postb_vars_go (length bs) n [] 0 L0 bs' m' r' Hb' E') as (A1 & A2 & A3 & A4). split; auto. unfold wfc_vars. rewrite A1, A3. rewrite andb_true_r. cbn [andb].
-    unfold fits. apply N.leb_le. fold sz in Hn.
-    assert (len_N m' * sz_var sz <= n * sz_var sz) by (apply N.mul_le_mono_r; lia). lia. }
+    unfold fits. apply (fitn_le _ _ n); [lia | apply fitn_intro; auto]. }
   eapply P; eauto.
 Qed.
 End Loaded.
